@@ -94,6 +94,8 @@ func runC06(cs *vrt.Case) {
 func runC06One(cs *vrt.Case) {
 	r := cs.Rng
 	switch k := cs.Idx % 8; {
+	case k == 3 && (cs.Idx/8)%2 == 0:
+		c06Roles(cs, r)
 	case k < 4:
 		c06Impl(cs, r)
 	case k < 7:
@@ -101,6 +103,100 @@ func runC06One(cs *vrt.Case) {
 	default:
 		c06Helpers(cs, r)
 	}
+}
+
+// c06Roles: two OT instances of one implementation (RSA or Chou-Orlandi) swap roles between
+// sessions on one connection (A sends to B, then B sends to A, then A to B
+// again ...), as two peers do that garble for each other in turn. Every
+// session re-initialises for its role; the receiver must get the chosen labels
+// in every session.
+func c06Roles(cs *vrt.Case, r *vrt.Rng) {
+	// only the implementations that allow it: COT and ROT refuse a second role by
+	// design ("already initialized as sender"), which is their documented contract
+	impl := 1
+	if cs.Idx%3 == 0 {
+		impl = 0 // RSA key generation is slow: a third of the draws
+	}
+	a, b, name, _, _ := otImpl(r, impl)
+	inst := [2]ot.OT{a, b}
+	d := newDuplex(r, vrt.Pick(r, []int{1, 2}), false)
+	ends := [2]ot.IO{d.A, d.B}
+	nsess := r.Range(3, 5)
+	max := 300
+	if impl == 0 {
+		max = 24
+	}
+	type sess struct {
+		snd   int
+		wires []ot.Wire
+		flags []bool
+		got   []ot.Label
+	}
+	var ss []sess
+	for k := 0; k < nsess; k++ {
+		n := 1 + r.Intn(max)
+		ss = append(ss, sess{snd: k % 2, wires: randWires(r, n), flags: choiceVec(r, n, 4), got: make([]ot.Label, n)})
+	}
+	if r.Bool() {
+		ss[len(ss)-1].snd = ss[len(ss)-2].snd // and sometimes the same role twice in a row
+	}
+	party := func(me int) func() error {
+		return func() error {
+			for k := range ss {
+				if ss[k].snd == me {
+					if err := inst[me].InitSender(ends[me]); err != nil {
+						return fmt.Errorf("session %d InitSender: %w", k, err)
+					}
+					if err := inst[me].Send(ss[k].wires); err != nil {
+						return fmt.Errorf("session %d Send: %w", k, err)
+					}
+				} else {
+					if err := inst[me].InitReceiver(ends[me]); err != nil {
+						return fmt.Errorf("session %d InitReceiver: %w", k, err)
+					}
+					if err := inst[me].Receive(ss[k].flags, ss[k].got); err != nil {
+						return fmt.Errorf("session %d Receive: %w", k, err)
+					}
+				}
+			}
+			return nil
+		}
+	}
+	ra, rb := runPair(d, party(0), party(1))
+	var roles []int
+	for _, x := range ss {
+		roles = append(roles, x.snd)
+	}
+	desc := map[string]any{"kind": "ot.OT, two instances swapping roles", "impl": name, "sender_per_session": roles}
+	cs.SetSample(desc)
+	cs.Seen("implementations", name)
+	cs.Count("role_swapping_session_groups", 1)
+	if pi := firstPanic(ra, rb); pi != nil {
+		if pi.InMPC {
+			cs.Violate("C06|panic|"+name+"|"+pi.Frame, "OT panicked: "+pi.Value, map[string]any{"case": desc, "stack": pi.Stack})
+		} else {
+			cs.Inconc("harness panic " + pi.Value + "\n" + pi.Stack)
+		}
+		return
+	}
+	if ra.err != nil || rb.err != nil {
+		cs.Violate("C06|error|roles|"+name, fmt.Sprintf("honest OT sessions with swapped roles failed: A=%v B=%v", ra.err, rb.err), map[string]any{"case": desc})
+		return
+	}
+	for k, x := range ss {
+		for i := range x.wires {
+			want := x.wires[i].L0
+			if x.flags[i] {
+				want = x.wires[i].L1
+			}
+			cs.Evals++
+			if !x.got[i].Equal(want) {
+				cs.Violate("C06|wrong-label|roles|"+name, fmt.Sprintf("%s: session %d (sender %d): position %d of %d did not receive the chosen label", name, k, x.snd, i, len(x.wires)), map[string]any{"case": desc})
+				return
+			}
+		}
+	}
+	cs.Key("roles", name, fmt.Sprint(roles))
 }
 
 func pickSize(cs *vrt.Case, r *vrt.Rng, max int) int {
